@@ -35,18 +35,24 @@ def close6(a, b, n=1):
 
 def gen_corr(rng):
     n = rng.choice([0, 0, 1, 2, 3, 5, 9, 15])
-    pool = [100.0, 150.0, 200.0, 298.15, 300.0, 400.0, 500.0, 600.0, 700.0, 800.0, 900.0, 1000.0, 1100.0, 1234.5678, 1300.0, 1400.0, 1500.0]
+    # (999.9996 K is 999999.6 mK: '%g' rounds it to 1e+06, just across the writer's switch to positional notation)
+    pool = [100.0, 150.0, 200.0, 298.15, 300.0, 400.0, 500.0, 600.0, 700.0, 800.0, 900.0, 999.9996, 1000.0, 1100.0, 1234.5678, 1300.0, 1400.0, 1500.0]
     Ts = sorted(rng.sample(pool, n))
+    if 999.9996 in Ts and 1000.0 in Ts:
+        Ts.remove(1000.0)            # (two temperatures that are the same number to six digits are one table row when written)
     # (values whose repr is exponent notation WITHOUT a decimal point - 1e-05, 2e-07 - come back from YAML as strings)
     Cps = [rng.choice([0.0, round(rng.uniform(-3, 12), 6), 1.23456789012, 1e-05, 3e-07]) for _ in Ts]
     j = {'op': 'yaml_roundtrip', 'T_ref': rng.choice([298.15, 298.0, 300.0, 273.15]),
          'H': rng.choice([None, 0.0, -0.0, round(rng.uniform(-60, 40), 7), -12.345678901234, 1e-05, -4e-06, 1e+16]),
          'S': rng.choice([None, 0.0, round(rng.uniform(-5, 40), 7), 2e-07, -1e-05]),
          'Ts': Ts, 'Cps': Cps, 'range': None}
+    if rng.random() < 0.08:
+        # a reference enthalpy of 999999.7 J/mol (or its negative): six digits round it to 1e+06
+        j['H'] = rng.choice([1, -1]) * 999999.7 / (8.314472 * j['T_ref'])
     if Ts and min(Ts) <= j['T_ref'] <= max(Ts) and rng.random() < 0.35:
         j['range'] = None          # no declared range: T_ref lies inside the tabulated span
     elif Ts:
-        j['range'] = rng.choice([[50.0, 3000.0], [min(Ts + [j['T_ref']]), max(Ts + [j['T_ref']])], [99.5, 1666.66]])
+        j['range'] = rng.choice([[50.0, 3000.0], [min(Ts + [j['T_ref']]), max(Ts + [j['T_ref']])], [99.5, 1666.66], [99.99996, 1999.9996]])
     elif rng.random() < 0.5:
         j['range'] = rng.choice([[100.0, 1500.0], [250.0, 1000.5]])
     if rng.random() < 0.5:
